@@ -169,6 +169,29 @@ Definition quote_xml_aux (s : string) : string := quote_xml_aux_of ref_xml_repl 
 Definition quote_xml (s : string) : string := quote_xml_of ref_xml_repl s.
 Definition validate_string (s : string) : string := s.
 
+(* ------------------------------------------------------------------ gds_format_float after the '%.15f' step *)
+(* str.rstrip(c) for a single character c *)
+Fixpoint rstrip_char (c : ascii) (s : string) : string :=
+  match s with
+  | EmptyString => EmptyString
+  | String a t => match rstrip_char c t with
+                  | EmptyString => if Ascii.eqb a c then EmptyString else str1 a
+                  | t' => String a t'
+                  end
+  end.
+
+Fixpoint ends_with (p s : string) : bool :=
+  String.eqb p s || match s with String _ t => ends_with p t | EmptyString => false end.
+
+(* (format, strip, dot, suffix): value = (format % x).rstrip(strip); if value.endswith(dot): value += suffix.
+   The '%.15f' rendering itself is CPython's (trusted); [s15] is that rendering. *)
+Definition float_finish_of (ff : string * string * string * string) (s15 : string) : string :=
+  let '(_, strip, dot, suffix) := ff in
+  match strip with
+  | String c EmptyString => let v := rstrip_char c s15 in if ends_with dot v then v ++ suffix else v
+  | _ => s15
+  end.
+
 (* decidable equality of the tables (used by the instance obligations) *)
 Definition pair_eqb (a b : ascii * string) : bool := Ascii.eqb (fst a) (fst b) && String.eqb (snd a) (snd b).
 Fixpoint repl_eqb (a b : repl) : bool :=
